@@ -368,7 +368,7 @@ encoding `b0` with operand bytes `b1 b2` ends in a host state related to the reg
 `g` (cycles included), with the bus, the host stack and the status byte untouched.  The statement for ALL register-only
 encodings is `RegisterSimulation`; it is PROVED for the register-transfer family (70 encodings) and for the 8-bit
 arithmetic and logic on A with a register or immediate operand, flags included (48 encodings; ADC / SBC: 16 more, `SimulatesF`; INC / DEC r, SCF, CCF: 16 more), and RES / SET b,r of the
-CB page (112 encodings: `SimulatesCb`), LD r,(HL) / LD (HL),r through the bus helpers (14 encodings: `SimulatesMem`) and BIT b,r (56 encodings: `SimulatesCbF`), and otherwise carried by the
+CB page (112 encodings: `SimulatesCb`), LD r,(HL) / LD (HL),r and the accumulator loads / stores through BC, DE, HL+ / HL- through the bus helpers (21 encodings: `SimulatesMem`) and BIT b,r (56 encodings: `SimulatesCbF`), and otherwise carried by the
 native differential and the exhaustive `c01.grid`. -/
 
 /-- the full statement for an encoding that touches no memory (not proved in general) -/
@@ -448,6 +448,13 @@ performs the SAME access — same address, same byte — and both end with the s
 stack and the status byte as they were -/
 theorem simulation_mem_partial : ∀ (r : Reg8) (b1 b2 : Nat), SimulatesMem (opcodeLdHl r) b1 b2 ∧ SimulatesMem (opcodeStHl r) b1 b2 :=
   fun r b1 b2 => ⟨sim_ldhl r b1 b2, sim_sthl r b1 b2⟩
+
+/-- the same for the accumulator loads and stores through BC, DE and the auto-incrementing HL: LD A,(BC) / (DE) / (HL+) / (HL-),
+LD (BC),A / (DE),A / (HL+),A (7 encodings; HL moves as in the interpreter) -/
+theorem simulation_mem_a_partial (b1 b2 : Nat) :
+    SimulatesMem 0x0a b1 b2 ∧ SimulatesMem 0x1a b1 b2 ∧ SimulatesMem 0x2a b1 b2 ∧ SimulatesMem 0x3a b1 b2 ∧
+    SimulatesMem 0x02 b1 b2 ∧ SimulatesMem 0x12 b1 b2 ∧ SimulatesMem 0x22 b1 b2 :=
+  ⟨sim_0a b1 b2, sim_1a b1 b2, sim_ldi_ldd false b1 b2, sim_ldi_ldd true b1 b2, sim_st_a false b1 b2, sim_st_a true b1 b2, sim_sti b1 b2⟩
 
 example : opcodeLdHl .A = 0x7e ∧ opcodeStHl .B = 0x70 := by decide
 
